@@ -259,6 +259,21 @@ impl C06 {
         self.check_one(&pb, expect, fam, op, "var-op-lit", st);
         let pc = format!("functie f(x) {{ {} {} x }} f({})", a, op, b);
         self.check_one(&pc, expect, fam, op, "lit-op-var", st);
+        // a comparison under `!`: the logical negation of the comparison's own answer (for NaN that is not the answer of
+        // the opposite comparison)
+        if matches!(op, "<" | "<=" | ">" | ">=" | "==" | "!=") {
+            let neg = match expect {
+                Expect::Exact(Val::Bool(v)) => Some(Expect::Exact(Val::Bool(!*v))),
+                Expect::TypeErr => Some(Expect::TypeErr),
+                _ => None,
+            };
+            if let Some(neg) = neg {
+                let pn = format!("!(({}) {} ({}))", a, op, b);
+                self.check_one(&pn, &neg, fam, op, "negated-toplevel", st);
+                let pm = format!("functie f(x, y) {{ als !(x {} y) {{ ja }} anders {{ nee }} }} f({}, {})", op, a, b);
+                self.check_one(&pm, &neg, fam, op, "negated-in-condition", st);
+            }
+        }
         // the very same object on both sides (x op x): the answer is that of two equal values — also for NaN
         if a == b {
             let pd = format!("stel x = {}; x {} x", a, op);
